@@ -13,6 +13,7 @@
 //        geom1 on the world body, geom2 on a body with a free joint; mj_kinematics + mj_collision.
 //        -> "ncon m12 gd12 ft12[6] gd21 ft21[6] (dist pos[3] frame[9] includemargin g1 g2)*ncon"
 //           m12 = detection distance margin+gap of the pair, gd = mj_geomDistance(.., distmax, fromto)
+//   CCD n   set mjOption.ccd_iterations = n for the WORLD models built afterwards (n <= 0: default); no output
 //   SCENE seed feat nbody distmax
 //        mjgen scene, random state, mj_kinematics + mj_collision
 //        -> "SCENE ncon" then per contact "C t1 t2 g1 g2 dist pos[3] frame[9] includemargin detect gd12 ft12[6] gd21 ft21[6]"
@@ -107,6 +108,8 @@ static void run_frame(void) {
 }
 
 // ---------------------------------------------------------------- WORLD: full pipeline on two geoms
+static int ccd_iter_override = 0;   // "CCD n": mjOption.ccd_iterations of subsequently built WORLD models (0: default)
+
 static void print_contacts(const mjModel* m, mjData* d) {
   for (int i = 0; i < d->ncon; i++) {
     mjContact* c = d->contact + i;
@@ -133,6 +136,7 @@ static void run_world(void) {
   if (!m) { printf("ERR %s\n", mjs_getError(s)); mj_deleteSpec(s); return; }
   mjData* d = mj_makeData(m);
   int ok = 0;
+  if (ccd_iter_override > 0) m->opt.ccd_iterations = ccd_iter_override;
   if (MJG_TRY) {
     mj_kinematics(m, d); mj_comPos(m, d); mj_collision(m, d);
     double ft12[6], ft21[6];
@@ -194,6 +198,7 @@ int main(void) {
     else if (!strcmp(cmd, "FRAME")) run_frame();
     else if (!strcmp(cmd, "WORLD")) run_world();
     else if (!strcmp(cmd, "SCENE")) run_scene();
+    else if (!strcmp(cmd, "CCD")) { if (scanf("%d", &ccd_iter_override) != 1) return 2; }
     else { fprintf(stderr, "c13: unknown command %s\n", cmd); return 2; }
   }
   return 0;
